@@ -58,6 +58,15 @@ json handle(Ctx &c, const json &rec) {
         df.rows(n4 + (on("nrows") ? 1 : 0));
         a3.appendDataFrameDimension(df, 0u);
         a3.unit("V");
+        // arrays with several dimensions of the same kind: a breach in a later dimension must not hide behind an earlier one
+        nix::DataArray a4 = b.createDataArray("a4", "t", nix::DataType::Double, nix::NDSize({2, 3}));
+        a4.appendSetDimension();
+        { std::vector<std::string> l2; for (int i = 0; i < 3 - (on("nlabels_2nd") ? 1 : 0); i++) l2.push_back("m" + std::to_string(i)); a4.appendSetDimension(l2); }
+        a4.unit("V");
+        nix::DataArray a5 = b.createDataArray("a5", "t", nix::DataType::Double, nix::NDSize({2, 3}));
+        { std::vector<double> t1, t2; for (int i = 0; i < 2 + (on("nticks_1st") ? 1 : 0); i++) t1.push_back(i); for (int i = 0; i < 3 + (on("nticks_2nd") ? 2 : 0); i++) t2.push_back(0.5 * i);
+          a5.appendRangeDimension(t1, "x", "ms"); a5.appendRangeDimension(t2, "y", "ms"); }
+        a5.unit("V");
         nix::DataArray af1 = b.createDataArray("af1", "t", nix::DataType::Double, nix::NDSize({2})); af1.unit("V"); af1.appendSetDimension();
         nix::DataArray af2 = b.createDataArray("af2", "t", nix::DataType::Double, nix::NDSize({2})); af2.unit("V"); af2.appendSetDimension();
         nix::Tag t = b.createTag("tag", "t", {1.0, 2.0});
@@ -91,12 +100,14 @@ json handle(Ctx &c, const json &rec) {
               if (r.hasErrors()) { json m = json::array(); for (auto &e : r.getErrors()) m.push_back(e.msg); details[key] = m; } }
         catch (const std::exception &e) { obs[key] = std::string("threw: ") + e.what(); }
     };
-    nix::DataArray a1 = b.getDataArray("a1"), a2 = b.getDataArray("a2"), a3 = b.getDataArray("a3");
+    nix::DataArray a1 = b.getDataArray("a1"), a2 = b.getDataArray("a2"), a3 = b.getDataArray("a3"), a4 = b.getDataArray("a4"), a5 = b.getDataArray("a5");
     nix::Tag t = b.getTag("tag"); nix::MultiTag m = b.getMultiTag("mtag");
     rec1("B", [&] { return nix::valid::validate(b); });
     rec1("A1", [&] { return nix::valid::validate(a1); });
     rec1("A2", [&] { return nix::valid::validate(a2); });
     rec1("A3", [&] { return nix::valid::validate(a3); });
+    rec1("A4", [&] { return nix::valid::validate(a4); });
+    rec1("A5", [&] { return nix::valid::validate(a5); });
     rec1("D11", [&] { return nix::valid::validate(a1.getDimension(1).asSampledDimension()); });
     rec1("D12", [&] { return nix::valid::validate(a1.getDimension(2).asRangeDimension()); });
     rec1("D21", [&] { return nix::valid::validate(a2.getDimension(1).asSetDimension()); });
@@ -116,7 +127,7 @@ json handle(Ctx &c, const json &rec) {
     std::string d = firstDiff(exp, obs);
     json r = d.empty() ? ok() : mismatch("valid:" + d, exp, obs);
     if (!d.empty()) r["messages"] = details;
-    r["n"] = 15;
+    r["n"] = 17;
     return r;
 }
 Reg reg("valid", handle);
